@@ -85,6 +85,7 @@ class Grammar:
         self.qvars = tuple(qvars)
         self.index = index
         self.inclusion = tuple(inclusion)  # sorts allowed on the right of 'in'
+        self.qvar_atoms = qvar_atoms  # callable(env) -> {sort: [atoms mentioning bound variables]}
         self._memo = {}
 
     # -- public -----------------------------------------------------------
@@ -110,7 +111,10 @@ class Grammar:
     # -- productions ------------------------------------------------------
     def _atoms(self, sort, env):
         out = list(self.atoms.get(sort, ()))
-        if sort == 'N':
+        if self.qvar_atoms is not None:
+            if env:
+                out += self.qvar_atoms(env).get(sort, [])
+        elif sort == 'N':
             out += [('var', v) for v in env]
         return out
 
